@@ -397,6 +397,10 @@ func zeroLeaf(l Leaf) string {
 	default:
 		z = "0"
 	}
+	if (s == "Str" || s == "Flt") && depth >= 1 && depth <= 2 {
+		// cvc5 accepts only values in constant arrays
+		return fmt.Sprintf("zarr%d.%s", depth, s)
+	}
 	cur := s
 	for i := 0; i < depth; i++ {
 		cur = "(Array Int " + cur + ")"
